@@ -643,8 +643,9 @@ class Function(NameAliasMixin, TokenList):
         for token in parenthesis.tokens:
             if isinstance(token, IdentifierList):
                 return token.get_identifiers()
-            elif imt(token, i=(Function, Identifier, TypedLiteral),
-                     t=T.Literal):
+            elif imt(token, i=(Function, Identifier, TypedLiteral, Operation,
+                               Comparison, Case, Parenthesis),
+                     m=(T.Keyword, 'NULL'), t=[T.Literal, T.Wildcard]):
                 result.append(token)
         return result
 
